@@ -3,7 +3,6 @@ package main
 import (
 	"encoding/json"
 	"fmt"
-	"reflect"
 	"sort"
 
 	pgs "github.com/lyft/protoc-gen-star/v2"
@@ -294,13 +293,31 @@ func (e astEngine) Gen(g *Gen) {
 		if e.section == "c07" {
 			w.Walks = genWalks(g, w)
 		}
-		if e.section == "c07" {
-			w.Walks = genWalks(g, w)
-		}
 		g.Emit(w)
+		if e.section == "c04" {
+			w.Rev = true
+			g.Emit(w)
+		}
 	}
 	for i := 0; i < n; i++ {
 		w := genWorld(g.Rng, o)
+		if e.section == "c04" { // twice: asked in request order and in reverse order
+			if !g.Mine() && !g.MineAfter(1) {
+				g.Emit(nil)
+				g.Emit(nil)
+				continue
+			}
+			if err := buildWorld(w).valid(); err != nil {
+				g.Count("protodesc", "rejected")
+				continue
+			}
+			g.Count("protodesc", "accepted")
+			countWorld(g, w)
+			g.Emit(w)
+			w.Rev = true
+			g.Emit(w)
+			continue
+		}
 		if !g.Mine() {
 			g.Emit(nil)
 			continue
@@ -387,13 +404,9 @@ func (e astEngine) Run(raw json.RawMessage) (interface{}, error) {
 	case "c03":
 		return observeC03(r), nil
 	case "c04":
-		// the derived relations are asked file by file; a second AST of the same request is asked in
-		// the opposite file order (importers before their imports) - the answers may not depend on it
-		fwd := observeC04(r, false)
-		if rev := observeC04(buildAST(w), true); !reflect.DeepEqual(fwd, rev) {
-			return rev, nil
-		}
-		return fwd, nil
+		// the derived relations are asked file by file: in request order, or (every world is run
+		// a second time with Rev set) importers before their imports - the answers may not depend on it
+		return observeC04(r, w.Rev), nil
 	case "c08":
 		return observeC08(r), nil
 	case "c09":
